@@ -1,6 +1,8 @@
 """C06 - Rebalance brings every child to its target weight"""
 from pyvc.runner import func
 
+UPDATE_ALL = [func("bt.core.StrategyBase.update", variant=v) for v in ("flat", "paper", "nested", "nested-paper")]
+
 ID = "C06"
 META = {
     "assumptions": ["A-REAL", "A-COMM", "A-T", "A-IND", "A-DATA-NONE", "A-SOLVER", "A-ENGINE"],
@@ -22,7 +24,7 @@ def tasks(tier, seed):
     return [
         func("bt.core.StrategyBase.rebalance"),
         func("bt.core.SecurityBase.allocate"),
-        func("bt.core.StrategyBase.update", variant="flat"),
+        *UPDATE_ALL,
         dict(kind="custom", module="props.lemmas", fn="c06_rebalance_lemmas"),
     ]
 
